@@ -677,6 +677,12 @@ def check(ctx):
     master = ctx.index.get_class(K.MASTER, 'Master')
     _load_order(ctx, loader)
     _recorded_topology(ctx, loader)
+    # shared with C08.2: the verbatim restore goes through Server.restore ->
+    # Server.put, which therefore admit an instance whatever the state of
+    # the server (a frozen or down server keeps what was recorded under it)
+    from . import c08
+    with ctx.shared({'C08': 'C11.2'}):
+        c08._leaf_ignores_state(ctx)
     _load_everything(ctx, loader)
     found = _verbatim(ctx, loader)
     if found is None:
